@@ -107,3 +107,24 @@ Definition c_enable (c : ctl) (t : nat) (cmds : list nat) : ctl :=
 (* task creation copies the creator's context *)
 Definition c_spawn (c : ctl) (parent child : nat) : ctl :=
   {| control_set := control_set c; ctxs := (child, ctx_get c parent) :: ctxs c |}.
+
+(* ---- delete_many / set_many: the same grouping, one backend call per group ---- *)
+Definition bstores := list (nat * list (key * val)).          (* backend id -> its contents *)
+Definition bs_get (st : bstores) (b : nat) : list (key * val) :=
+  match find (fun e => Nat.eqb (fst e) b) st with Some e => snd e | None => [] end.
+Fixpoint bs_put (st : bstores) (b : nat) (c : list (key * val)) : bstores :=
+  match st with
+  | [] => [(b, c)]
+  | (b', c') :: r => if Nat.eqb b b' then (b', c) :: r else (b', c') :: bs_put r b c
+  end.
+Definition kv_get (c : list (key * val)) (k : key) : option val :=
+  match find (fun e => String.eqb (fst e) k) c with Some e => Some (snd e) | None => None end.
+Definition kv_del (c : list (key * val)) (k : key) := filter (fun e => negb (String.eqb (fst e) k)) c.
+Definition kv_set (c : list (key * val)) (k : key) (v : val) := kv_del c k ++ [(k, v)].
+Definition facade_delete_many (rt : key -> nat) (st : bstores) (ks : list key) : bstores :=
+  fold_left (fun st g => bs_put st (fst g) (fold_left kv_del (snd g) (bs_get st (fst g)))) (groups rt ks) st.
+Definition facade_set_many (rt : key -> nat) (st : bstores) (kvs : list (key * val)) : bstores :=
+  fold_left (fun st g => bs_put st (fst g)
+                           (fold_left (fun c k => match kv_get kvs k with Some v => kv_set c k v | None => c end)
+                                      (snd g) (bs_get st (fst g))))
+            (groups rt (map fst kvs)) st.
